@@ -86,7 +86,7 @@ func NewDecimal(x int64, exp int) *Decimal {
 	if u < 0 {
 		u = -u
 	}
-	return new(Decimal).setBits64(x < 0, uint64(u), int64(exp))
+	return new(Decimal).setBits64(x < 0, uint64(u), clampExp(int64(exp)))
 }
 
 // Abs sets z to the (possibly rounded) value |x| (the absolute value of x)
